@@ -84,7 +84,7 @@ def c18(c):
 def c10(c):
     c.gen("http", "http", "GenHttp.v")
     c.coq(["http", "httpresp", "server"], "C10", "ServerC")
-    c.trusted += ["the composition theorem covers pipelined body-less requests (c07 partial); requests with bodies, the close decision and the kernel are exercised by the harness, not proved",
+    c.trusted += ["the composition theorem covers pipelined requests without a body, with Content-Length bodies and with chunked bodies (c07 msg theorems); chunk extensions, trailers, the close decision and the kernel are exercised by the harness, not proved",
                   "TLS is exercised end to end, not proved: every matrix cell runs a TLS listener next to the plain one on one engine (llib crypto/tls fork); the TLS record layer, handshake and certificate handling are trusted to the independent clients (Go crypto/tls 1.2 and 1.3, net/http) acting as the decoder of the oracle",
                   "nbhttp.Client over TLS runs with the full callback oracle over TLS 1.2; its TLS 1.3 handshake is probed by one request: with llib v1.2.4 it fails with an error callback (bad record MAC, dependency defect), which the property allows ('or an error'); exactly-once is still checked",
                   "overlay/add/nbhttp/zz_verif_tls.go only constructs tls.Config values (one certificate; InsecureSkipVerify; optional MaxVersion)",
